@@ -193,3 +193,18 @@ func planC04(tier string, seed uint64) *Plan {
 	p.Phases = []Phase{{Name: "hostile-urls", Groups: randomPlan("c04", seed, swarmCfgs(seed, n), jobs, count, "auto")}}
 	return p
 }
+
+func init() { plans["C10"] = planC10 }
+
+func planC10(tier string, seed uint64) *Plan {
+	p := &Plan{
+		Level: "exploration",
+		Rule: "seeded collection layouts (Collection/OrderedCollection, items on root and/or 0-6 pages of 0-5 items, embedded and remote pages and items, cycles, endlessly empty tails, a page that fails to load) x seeded sequences of 1-14 request sizes 0-9 fed back through the returned continuation; delivered tokens compared position by position with the unrolled reference chain. Non-trivial = every run; distinct = distinct (world tape, event order) fingerprint.",
+	}
+	n, jobs, count := 16, 2, 400
+	if tier == "thorough" {
+		n, jobs, count = 32, 4, 6000
+	}
+	p.Phases = []Phase{{Name: "paging", Groups: randomPlan("c10", seed, swarmCfgs(seed, n), jobs, count, "stub")}}
+	return p
+}
